@@ -196,6 +196,18 @@ def run_config(ctx, rep, cfg, F, walkers=None, ctors=None, extras=True, floor=90
     if not extras:
         rep.floor("iterator step / constructor paths (%s)" % cfg, n, floor)
         return
+    # ---- hand-written Default: an empty iterator (no table, empty stack)
+    for short in ("<map::Iter as Default>::default", "<IterMut as Default>::default"):
+        if short in F.short:
+            for p in C.complete(ctx.paths(F, short, {"loop_bound": 1})):
+                n += 1
+                st = innermost(None, p.result[1])
+                nodes = st.fields["nodes"].value if st else None
+                empty = isinstance(nodes, VecV) and nodes.obj.base is None and not nodes.obj.items
+                if st is None or not empty:
+                    rep.bad("R03.6", short, "default-not-empty", "%s must be the empty iterator; it is %r" % (short, p.result[1]), config=cfg)
+                else:
+                    rep.ok("R03.6", short, "empty iterator")
     # ---- clones: derived (copies table reference + stack), or a hand-written clone / clone_from that provably does the same
     for short in CLONES:
         path = F.short.get(short)
